@@ -169,7 +169,10 @@ def aggregate(prop, tier, seed, plan, results, t0):
         # the workload dies before the deciding monitors can observe: never report this as "held"
         floor_fail.append(f"crashed_cases={crashed}>25%of{cases}")
     wall = time.time() - t0
-    status = "violated" if unknown else ("inconclusive" if (floor_fail or (inconcl and not cases)) else "held")
+    if inconcl:
+        # part of the planned workload did not report (watchdog, dead worker): what ran may have held, the check has not
+        floor_fail.append(f"inconclusive_shards={len(inconcl)}")
+    status = "violated" if unknown else ("inconclusive" if floor_fail else "held")
     evidence = {
         "property_id": prop, "tier": tier, "seed": seed, "level": "exploration",
         "coverage": {
